@@ -96,7 +96,7 @@ func (trustStore *x509TrustStore) GetCertificates(ctx context.Context, storeType
 	for _, file := range files {
 		certFileName := file.Name()
 		joinedPath := filepath.Join(path, certFileName)
-		if file.IsDir() || file.Type()&fs.ModeSymlink != 0 {
+		if !file.Type().IsRegular() {
 			return nil, CertificateError{Msg: fmt.Sprintf("trusted certificate %s in trust store %s of type %s is not a regular file (directories or symlinks are not supported)", certFileName, namedStore, storeType)}
 		}
 		certs, err := corex509.ReadCertificateFile(joinedPath)
